@@ -107,6 +107,8 @@ pub struct Hist {
     pub barrier_violations: Vec<(u64, u64, String)>,
     pub leaked: Vec<u64>,
     pub buffer_cap: usize,
+    /// virtual time of the last cleanup tick, fed after the clients have been joined
+    pub final_tick_ns: u64,
 }
 
 fn ttl_for(rng: &mut Rng) -> u64 {
@@ -460,10 +462,15 @@ pub fn finish(flavor: Flavor, h: &HCfg, d: Arc<dyn Drv>, ops: Vec<OpRec>, ticks_
     if let Err(e) = wait_ok(d.as_ref()) {
         qerr = Some(e);
     }
-    clock::advance(Duration::from_secs(5));
+    // far enough for every TTL of the history (at most 3 s) to have elapsed by more than one bucket width
+    // plus one cleanup interval (at most 2 s) when the last tick is fed
+    clock::advance(Duration::from_secs(8));
+    let mut final_tick_ns = clock::now_ns();
     let mut sent = ticks_sent_so_far;
     if ticker::tick() {
         sent += 1;
+    } else {
+        final_tick_ns = 0; // no tick could be fed: the bounded-delay clause is not decided
     }
     if !d.drive_until(&|| counters::get(&counters::TICKS_DONE) >= sent, Duration::from_secs(120)) {
         qerr = Some(format!("ticks handled {} of {sent} after 120 s", counters::get(&counters::TICKS_DONE)));
@@ -569,6 +576,7 @@ pub fn finish(flavor: Flavor, h: &HCfg, d: Arc<dyn Drv>, ops: Vec<OpRec>, ticks_
         barrier_violations: bbad,
         leaked,
         buffer_cap,
+        final_tick_ns,
     }
 }
 
@@ -619,6 +627,21 @@ pub fn check_history(hist: &Hist, rep: &mut Report) {
     if let Some(e) = &hist.quiesce_err {
         rep.inconclusive(format!("quiescence not reached: {e}"));
         return;
+    }
+
+    // ---------------------------------------------------------------- C05: reclaimed within the bound, at the quiescent end
+    // The clients have been joined, the buffer drained, the clock moved 8 s on and one more tick handled:
+    // an entry whose deadline lies more than one bucket width plus one cleanup interval before that tick
+    // must have been reclaimed by it, however late the processor filed it (entries are told apart by index:
+    // collision-free keys only).
+    if !hist.h.cfg.collide && hist.close_err.is_none() && hist.final_tick_ns != 0 {
+        let interval = hist.h.cfg.cleanup.map_or(2_000_000_000u64, |c| c.as_nanos() as u64);
+        rep.count("ho_c05_final_sweeps_checked");
+        for e in hist.snap.store.iter() {
+            if e.ttl_ns != 0 && e.created_ns.saturating_add(e.ttl_ns).saturating_add(1_000_000_000).saturating_add(interval) <= hist.final_tick_ns {
+                rep.violate("C05", "cleanup/not-reclaimed-in-bound", format!("entry (index {:#x}, value #{:x}) inserted at {} ns with TTL {} ns is still resident after the tick fed at {} ns (deadline + bucket width + cleanup interval {} ns passed, clients joined, buffer drained)", e.index, e.tag, e.created_ns, e.ttl_ns, hist.final_tick_ns, interval), json!({"history": d}));
+            }
+        }
     }
 
     // ---------------------------------------------------------------- C05 / C04 / C03: never swept early
